@@ -104,6 +104,11 @@ def v_not1_raises(value, port):
         raise ValueError()
 
 
+def v_not1_empty(value, port):
+    """The same rule with an empty message (what ``str(AssertionError())`` gives): refused is refused, whatever the text."""
+    return '' if v_not1(value, port) is not None else None
+
+
 def nsv_no_x_old(values):
     return nsv_no_x(values, None)
 
@@ -113,8 +118,8 @@ def nsv_some(values, port):
     return 'nothing given' if not values else None
 
 
-VALIDATORS = {'nsv_some': nsv_some, 'v_not1': v_not1, 'nsv_no_x': nsv_no_x, 'v_short': v_short, 'v_not1_old': v_not1_old, 'nsv_no_x_old': nsv_no_x_old, 'v_not1_raises': v_not1_raises}
-MODEL_VALIDATORS = {'nsv_some': nsv_some, 'v_not1': v_not1, 'nsv_no_x': nsv_no_x, 'v_short': v_short, 'v_not1_old': v_not1, 'nsv_no_x_old': nsv_no_x, 'v_not1_raises': v_not1}
+VALIDATORS = {'nsv_some': nsv_some, 'v_not1': v_not1, 'nsv_no_x': nsv_no_x, 'v_short': v_short, 'v_not1_old': v_not1_old, 'nsv_no_x_old': nsv_no_x_old, 'v_not1_raises': v_not1_raises, 'v_not1_empty': v_not1_empty}
+MODEL_VALIDATORS = {'nsv_some': nsv_some, 'v_not1': v_not1, 'nsv_no_x': nsv_no_x, 'v_short': v_short, 'v_not1_old': v_not1, 'nsv_no_x_old': nsv_no_x, 'v_not1_raises': v_not1, 'v_not1_empty': v_not1}
 def ns_empty():
     return {}
 
@@ -191,7 +196,7 @@ def rand_port(rng):
             if val != 1:
                 attrs['default'] = ['val', val]
     if rng.random() < 0.2 and vt in (None, 'int', 'intstr'):
-        attrs['validator'] = rng.choice(['v_not1', 'v_not1', 'v_not1', 'v_not1_old', 'v_not1_old', 'v_not1_raises'])
+        attrs['validator'] = rng.choice(['v_not1', 'v_not1', 'v_not1', 'v_not1_old', 'v_not1_old', 'v_not1_raises', 'v_not1_empty'])
     if rng.random() < 0.1 and (vt or 'validator' in attrs):
         # the type / validator are set through the property setters after the port was declared (a sub class tightening an inherited
         # port): the default in place need not conform any more, which must show as soon as it is used
